@@ -246,3 +246,18 @@ reg('C17',
     level_text='Exhaustive over the stated counts, lengths and call scripts: header digits, byte order, refusal of over-length data with -310, and item accounting (comma only after a completed block) are compared for every case.',
     level_note='lengths >= 10^9 are outside the statement',
     design_ref='DESIGN.md section 3 / C17')
+
+reg('C18',
+    title='the error query always yields one well-formed, bounded error response',
+    src='c18_errquery.c',
+    configs={'quick': ['def', 'heap'], 'thorough': ['def', 'heap', 'noinfo']},
+    deadline={'quick': 100, 'thorough': 900},
+    level=MC,
+    technique='bounded-exhaustive enumeration of (error code, text length, quote placement) on the real SYST:ERR? path (ASan), each response parsed by an independent IEEE 488.2 string reader',
+    rule={'quick': 'all 65536 codes without text; for every distinct description length and for a code without table entry: text lengths {0..8} u {B-6..B+6} u {300, 400} (B = text index where the 255-character limit falls) x every placement of 0..3 double quotes inside the windows [0,8) and [B-6,B+6) and of one single quote; malloc build and static-heap build (with and without a heap prefill that makes the text wrap); non-trivial = response that passed the reader (well-formed string, prefix of description;text, <= 255, cut as late as possible)',
+          'thorough': 'windows of +-10 around the limit; also the no-info build'},
+    assumptions=['for an empty text both "description" and "description;" are accepted (the malloc build stores the empty string, the heap build stores nothing)',
+                 'descriptions are taken from the LIST_OF_ERRORS X-macro, independently of SCPI_ErrorTranslate'],
+    level_text='Exhaustive over all codes, and over all quote placements around both places where escaping and the 255-character cut interact.',
+    level_note='texts longer than 255 are pushed with an explicit length (the automatic length stops at 255)',
+    design_ref='DESIGN.md section 3 / C18')
